@@ -36,14 +36,14 @@ type zzArg struct {
 func (g *zzArg) str(name string) []byte {
 	b := zzBytes(g.pre+name, g.l)
 	for i := range b {
-		g.dom = zzAnd(g.dom, zzAnd(b[i] >= 1, b[i] <= 0x7f))
+		g.dom = zzAnd(g.dom, zzAnd(b[i] >= 0x20, b[i] <= 0x7e))
 	}
 	return b
 }
 func (g *zzArg) strN(name string, n int) []byte {
 	b := zzBytes(g.pre+name, n)
 	for i := range b {
-		g.dom = zzAnd(g.dom, zzAnd(b[i] >= 1, b[i] <= 0x7f))
+		g.dom = zzAnd(g.dom, zzAnd(b[i] >= 0x20, b[i] <= 0x7e))
 	}
 	return b
 }
